@@ -10,6 +10,7 @@ import CM.Model.Pipe
 import CM.Model.Denote
 import CM.Proofs.BagField
 import CM.Proofs.BagDen
+import CM.Proofs.CacheBag
 namespace CM.C07
 open CM
 
@@ -174,4 +175,53 @@ example : ((BTerm.node (.cache 0) [.inp "x"]).den { env := fun _ => some (.int 1
   have h := cache_node_den { env := fun _ => some (.int 1) } 0 (.inp "x")
   simp only [BTerm.den] at h ⊢
   exact ⟨h.2 _ rfl, h.1⟩
+
+theorem cacheBag_output_names {s : Nat} {names : NameSet} {prev : List String} {b : Bag} (h : cacheBag s names prev = .ok b)
+    (x : String) (hx : x ∈ CM.names b.outputs) : x ∈ cachedNames names prev := by
+  obtain ⟨rfl, _⟩ := mkBag_ok h
+  simp only [RawBag.core, addIdentities_eq, CM.names, List.map_append, List.mem_append] at hx
+  rcases hx with hx | hx
+  · have := names_nodesAt (cachedNames names prev).length (cachedNames names prev)
+    simp only [cacheRaw, CM.names] at hx this
+    rw [this] at hx; exact hx
+  · have hcl := cloneEdges_names false (cacheRaw s (cachedNames names prev)).rule3 (cacheRaw s (cachedNames names prev)).next
+    simp only [CM.names] at hcl
+    rw [hcl] at hx
+    obtain ⟨i, hi, rfl⟩ := List.mem_map.1 hx
+    have hin : i ∈ (cacheRaw s (cachedNames names prev)).inputs := (List.mem_filter.1 hi).1
+    have := names_nodesAt 0 (cachedNames names prev)
+    simp only [cacheRaw, CM.names] at hin this
+    rw [← this]
+    exact List.mem_map.2 ⟨i, hin, rfl⟩
+
+/-- **Inserting a cache layer changes no key and no value (node level, unconditional).**  Let `l` be the well-formed container of a
+pipeline, `b` the container `CacheToRam / CacheToDisk(names)` builds on top of it and `c = connect_bags(l, b)`.  Every field of `c`
+is a field of `l`, with the same node hash for every input and the same (cache-free) value. -/
+theorem node_cache_layer_keeps_hashes {l b c : Bag} {s : Nat} {names : NameSet} (hl : l.WF)
+    (hb : cacheBag s names (CM.names l.outputs) = .ok b) (hc : connectBags l b = .ok c)
+    (x : String) (t : BTerm) (hf : c.Field x t) (d : DenCfg) :
+    ∃ tl, l.Field x tl ∧ (t.den d).h.map (·.1) = (tl.den d).h.map (·.1) ∧
+      (∀ hh, (tl.den d).h = .ok hh → (t.den d).v = (tl.den d).v) := by
+  have hbw := cacheBag_wf hb
+  obtain ⟨_, hfield, _, _⟩ := connect_step hl hbw hc
+  rcases (hfield x t).1 hf with ⟨t0, h0, hg⟩ | ⟨_, hlf⟩
+  · have hxc : x ∈ cachedNames names (CM.names l.outputs) := by
+      obtain ⟨o, ho, hox, _⟩ := h0
+      exact cacheBag_output_names hb x (List.mem_map.2 ⟨o, ho, hox⟩)
+    obtain ⟨i, hfi⟩ := cacheBag_field hb x hxc
+    have ht0 : t0 = .node (.cache (s + i)) [.inp x] := by
+      obtain ⟨o₁, ho₁, hx₁, hd₁⟩ := h0
+      obtain ⟨o₂, ho₂, hx₂, hd₂⟩ := hfi
+      have : o₁ = o₂ := hbw.outNames o₁ ho₁ o₂ ho₂ (hx₁.trans hx₂.symm)
+      subst this
+      exact BDen.det hbw.single hd₁ hd₂
+    rw [ht0] at hg
+    obtain ⟨t', rfl, hg'⟩ := glue_cache hg
+    have hxl : x ∈ CM.names l.outputs := (List.mem_filter.1 hxc).1
+    cases hg' with
+    | @fed _ o _ ho hon hd => exact ⟨t', ⟨o, ho, hon, hd⟩, cache_node_den d (s + i) t'⟩
+    | virt hx _ => exact absurd hxl hx
+    | cut hx _ => exact absurd hxl hx
+  · exact ⟨t, hlf, rfl, fun _ _ => rfl⟩
+
 end CM.C07
